@@ -37,7 +37,7 @@ WORKLOADS = [
         stub=["fault-injecting overrides of check_convergence and solve_linear_system (pass the real answer through when no fault is due)", "save_data_time_step is a no-op (export studied under C38)"],
     ),
     Workload(
-        name="driver_mp", leak_mb=0.9, override_cap=16, run=driver_sim.make_run("C10", families=("energy", "mech", "poro", "damage")), runs={"quick": 64, "thorough": 3_000}, chunk=4, run_timeout=600.0,
+        name="driver_mp", leak_mb=0.9, override_cap=16, run=driver_sim.make_run("C10", families=("energy", "mech", "poro", "damage", "mech_lin")), runs={"quick": 64, "thorough": 3_000}, chunk=4, run_timeout=600.0,
         real=["as workload driver, with the physics replaced by MassAndEnergyBalance / MomentumBalance (contact mechanics) / Poromechanics on the same geometry: "
               "vector-valued, interface and contact-traction variables in the stored state, genuinely non-converging solves (contact) next to the injected ones"],
         stub=["fault-injecting overrides of check_convergence and solve_linear_system", "save_data_time_step is a no-op"],
